@@ -36,6 +36,7 @@ BUILTIN_TYPES = {"int", "bool", "bytes", "str", "list", "tuple", "dict", "bytear
 STDLIB = {
     "struct": {"pack": "f", "unpack": "f", "error": "c:struct.error"},
     "os": {"urandom": "f", "read": "f", "path": "m:os.path", "O_WRONLY": 1, "O_TRUNC": 512, "O_CREAT": 64, "open": "f",
+           "O_APPEND": 1024, "O_RDWR": 2, "O_RDONLY": 0, "O_EXCL": 128,
            "fdopen": "f", "chmod": "f", "chown": "f", "utime": "f", "truncate": "f", "stat": "f", "getpid": "f",
            "fstat": "f", "SEEK_END": 2, "kill": "f"},
     "os.path": {"normpath": "f", "isabs": "f", "join": "f", "expanduser": "f", "exists": "f"},
